@@ -297,6 +297,11 @@ def _run_task(args):
         fault = None
     except CheckerFault as ex:
         fault = 'task %s: %s' % (taskname, ex)
+    except (Unsupported, TooManyPaths) as ex:
+        # the tree under check uses a construct outside the symbolic model before the obligations of this task could be stated:
+        # undecided (never a violation, never a checker fault)
+        rec.record('%s/engine' % taskname, [], 'Pκ', 'undecided', 'engine', time.time() - t, 'outside the symbolic model while setting up the task: %s' % ex)
+        fault = None
     except Exception as ex:
         fault = 'task %s crashed: %s\n%s' % (taskname, ex, traceback.format_exc()[-1500:])
     return {'task': taskname, 'obs': rec.obs, 'bounded': rec.bounded, 'functions': sorted(rec.functions),
